@@ -842,12 +842,18 @@ fn search(oracle: &str, seed: u64) -> Outcome {
                                 for bad in bads { let mut t2 = base.clone(); t2[k] = bad.to_string(); texts.push(t2); }
                             }
                         }
-                        for segs in &texts {
-                            let text = segs.join(" ");
+                        // blanks: tab / CR LF count as blanks wherever blanks may appear, a vertical tab does not
+                        let mut variants: Vec<(String, Vec<String>, bool)> = texts.iter().map(|sg| (sg.join(" "), sg.clone(), false)).collect();
+                        if vi == 0 {
+                            variants.push((base.join("\t"), base.clone(), false));
+                            variants.push((format!("  {}\r\n", base.join(" ")), base.clone(), false));
+                            variants.push((format!("{}\x0B", base.join(" ")), base.clone(), true));
+                        }
+                        for (text, segs, must_fail) in &variants {
                             for ty in 0..3 {
                                 n_eval += 1;
                                 let (hd, ht) = match ty { 0 => (true, false), 1 => (false, true), _ => (true, true) };
-                                let want = ref_parse(&toks, segs, hd, ht, ny, nm);
+                                let want = if *must_fail { None } else { ref_parse(&toks, segs, hd, ht, ny, nm) };
                                 let (exp, act, call) = match ty {
                                     0 => (want.map(|(y, m, d, _)| format!("Ok(days={})", days_from_civil(y, m, d))).unwrap_or("Err(..)".into()),
                                           match Date::parse(&text, &picture) { Ok(v) => format!("Ok(days={})", v.days()), Err(_) => "Err(..)".into() }, "Date"),
